@@ -514,7 +514,9 @@ def stack_probe(res, stats):
         res['violations'].append({'kind': 'stack-probe-build', 'cases': [['f64', 'eval', '', enc('(')]], 'observed': str(e)[-300:], 'why': 'the stack probe does not build'})
         return
     shapes = [('(' * 256, 'open-brackets'), ('-' * 256, 'prefix-signs'), ('2(' * 128, 'juxtaposed-brackets'), ('(' * 127 + '1' + ')' * 127, 'balanced-brackets'),
-              ('abs(' * 50 + '1' + ')' * 50, 'nested-calls'), ('⌈' * 85, 'open-ceilings'), ('1+(' * 85 + '1', 'operator-brackets')]
+              ('abs(' * 50 + '1' + ')' * 50, 'nested-calls'), ('⌈' * 85, 'open-ceilings'), ('1+(' * 85 + '1', 'operator-brackets'),
+              # well-formed deep inputs: the tree is built and evaluated (eval frames are larger than parser frames)
+              ('-' * 255 + '1', 'prefix-signs-operand'), ('-(' * 85 + '1' + ')' * 85, 'sign-brackets'), ('1-(' * 84 + '1' + ')' * 84, 'operator-brackets-closed')]
     n = nd = 0
     worst = {}
     for prof in ('debug', 'release', 'plaindebug'):
